@@ -56,8 +56,17 @@ def _child(spec, script, args, cwd, stdin_fd, out_fd, err_fd, trace_fd, plan, en
         os.dup2(err_fd, 2)
         sys.stdin = io.TextIOWrapper(io.FileIO(0, "r", closefd=False), encoding="utf-8",
                                      errors="strict")
-        sys.stdout = io.TextIOWrapper(io.FileIO(1, "w", closefd=False), encoding="utf-8",
-                                      errors="strict", line_buffering=bool(tty))
+        raw_out = io.FileIO(1, "w", closefd=False)
+        if plan and plan.get("stdout_buffer"):
+            # block-buffered like a real pipe, with a small buffer so that the flush boundaries fall
+            # inside a short run
+            # two layers as in CPython: the text layer keeps a chunk back, the binary one a buffer
+            sys.stdout = io.TextIOWrapper(io.BufferedWriter(raw_out, buffer_size=plan["stdout_buffer"]),
+                                          encoding="utf-8", errors="strict")
+            sys.stdout._CHUNK_SIZE = max(2, plan["stdout_buffer"])
+        else:
+            sys.stdout = io.TextIOWrapper(raw_out, encoding="utf-8", errors="strict",
+                                          line_buffering=bool(tty))
         sys.stderr = io.TextIOWrapper(io.FileIO(2, "w", closefd=False), encoding="utf-8",
                                       errors="backslashreplace", line_buffering=True)
         sys.__stdin__, sys.__stdout__, sys.__stderr__ = sys.stdin, sys.stdout, sys.stderr
@@ -152,12 +161,19 @@ class Handle(object):
 
 
 def spawn(spec, script, args, cwd=None, stdin="", plan=None, env=None, tty=False,
-          close_in_child=(), keep_in_parent=()):
+          close_in_child=(), keep_in_parent=(), closed_stdout=False):
     """fork a command child; returns a Handle for finish()."""
     COUNT[0] += 1
     h = Handle()
     cwd = cwd or spec.get("cwd", "/")
-    h.out_fd = _memfd("out")
+    h.out_is_pipe = bool(closed_stdout)
+    if closed_stdout:
+        # stdout is a pipe whose reader has gone away (`trash-empty -v | head -1`): every flush of
+        # the command's output fails with EPIPE (SIGPIPE is ignored, as under a Python parent)
+        r_, h.out_fd = os.pipe()
+        os.close(r_)
+    else:
+        h.out_fd = _memfd("out")
     h.err_fd = _memfd("err")
     h.trace_fd = _memfd("trace")
     h.master = None
@@ -199,7 +215,7 @@ def finish(h):
         code = 128 + sig
     else:
         code = os.WEXITSTATUS(status)
-    out = _slurp(h.out_fd)
+    out = b"" if getattr(h, "out_is_pipe", False) else _slurp(h.out_fd)
     err = _slurp(h.err_fd)
     tr = _slurp(h.trace_fd)
     stdin_used = 0
@@ -222,13 +238,13 @@ def finish(h):
                   stdin_used, sig)
 
 
-def run(spec, script, args, cwd=None, stdin="", plan=None, env=None, tty=False):
+def run(spec, script, args, cwd=None, stdin="", plan=None, env=None, tty=False, closed_stdout=False):
     """Execute one command in the current world and wait for it.  Returns Result.
 
     stdin: text fed to the command's standard input (a regular memfd, so EOF
     follows the text); tty=True gives the command a pseudo terminal instead.
     """
-    return finish(spawn(spec, script, args, cwd, stdin, plan, env, tty))
+    return finish(spawn(spec, script, args, cwd, stdin, plan, env, tty, closed_stdout=closed_stdout))
 
 
 def run_scheduled(spec, jobs, schedule, prefixes, max_steps=5000):
